@@ -96,8 +96,9 @@ class Violation:
         self.witness = list(witness if witness is not None else res.witness)
         self.script = res.script if script is None else script
         self.gtext = g.text(); self.family = g.meta.get('family')
-        self.confirmed = None; self.native = None
-    def asdict(self): return dict(self.__dict__)
+        self.confirmed = None; self.native = None; self.report_as = None
+        self._res = res
+    def asdict(self): return {k: v for k, v in self.__dict__.items() if not k.startswith('_')}
 
 # ---------------------------------------------------------------- C01
 def eval_c01(g, h, cx, res, out):
@@ -250,7 +251,22 @@ def grammar_job(args):
             return out
         pp = run.ParserProgram(h)
         entries = ['parse'] + ['parse_' + p for p in h.parts]
-        ev = [EVALS[p] for p in opts.get('evals', [prop])]
+        ev = []
+        for p in opts.get('evals', [prop]):
+            name, _, relabel = p.partition(':')
+            if name == 'C04auto':
+                name = 'C04p' if (g.features() & {'choice', 'ptrue'}) else 'C04'
+            if name in ('C04', 'C04p', 'C05') and (g.features() & {'pred', 'assert'}): continue
+            f = EVALS[name]
+            if relabel:
+                def wrap(f=f, relabel=relabel):
+                    def e(g, h, cx, r, viol):
+                        tmp = []; f(g, h, cx, r, tmp)
+                        for v in tmp: v.detail = f'[{v.prop} machinery under {relabel}] ' + v.detail; v.report_as = relabel
+                        viol.extend(tmp)
+                    return e
+                f = wrap()
+            ev.append(f)
         for entry in entries:
             for n in range(N + 1):
                 results, st, hit = cached_explore(pp, entry, n, out['stats'])
@@ -295,6 +311,18 @@ def confirm(h, g, v):
     tmo = 10 if v.kind in ('lasso', 'recursion', 'budget') else 30
     o = harness.run_native(h, [(v.entry, toks, v.script)], timeout=tmo)[0]
     v.native = o if len(json.dumps(o)) < 3000 else {'truncated': True}
+    if v.prop == 'C08':
+        if v.kind in ('state-not-restored', 'missing-delete') and list(v.witness) == list(v._res.witness):
+            # internal state of the real code, observed on its MIR: confirmed when the native run of the same input
+            # produces exactly the outputs (nodes, diagnostics, callback log, walk) the symbolic run predicts
+            return run.compare_native(h, v._res, o) is None
+        if o.get('panic') or o.get('timeout') or o.get('crash'): return False
+        if v.kind == 'action-while-choice-active': return any(e[0] == 3 and e[4] for e in o['log'])
+        if v.kind == 'choice-flag-leaks': return bool((o['log'] and o['log'][-1][4]) or any(d[3] for d in o['diags']))
+        if v.kind == 'diagnostic-after-backtrack':
+            ps = [d[2] for d in o['diags'] if d[4] == 0]
+            return any(b <= a for a, b in zip(ps, ps[1:]))
+        return False
     return native_holds(h, g, v.prop, v.entry, v.witness, o) is False
 
 def native_holds(h, g, prop, entry, witness, o):
@@ -334,7 +362,21 @@ def native_holds(h, g, prop, entry, witness, o):
     w = tuple(h.tokens[witness[i]] for i in core)
     rules = g.rules_dict(); start = ('ref', entry_start(g, entry))
     if prop == 'C04':
+        if g.features() & {'choice', 'ptrue'}:
+            if not o['diags']: return derives(rules, start, w)
+            return not ref_of(g).run(list(w), start=entry_start(g, entry), part=entry != 'parse')['accept']
         return derives(rules, start, w) == (len(o['diags']) == 0)
+    if prop == 'C05':
+        if o['walk'] == 'PANIC' or o['diags']: return None
+        ref = ref_of(g).run(list(w), start=entry_start(g, entry), part=entry != 'parse')
+        if not ref['accept']: return None
+        remap = {i: k for k, i in enumerate(core)}
+        def plain(x):
+            if x[0] == 'T': return ('T', remap[x[2]]) if x[2] in remap else None
+            ks = [plain(k) for k in x[4]]
+            return ('R', h.rule_dbg.get(h.rule_enum[x[1]], h.rule_enum[x[1]]), [k for k in ks if k is not None])
+        acts = [h.acts[e[1]] for e in o['log'] if e[0] == 3]
+        return plain(o['walk']) == ref['tree'] and acts == [f'action_{r}_{k}' for r, k in ref['actions']]
     if prop == 'C06':
         last = -1
         for lo, hi, pos, inch, kind in o['diags']:
@@ -491,3 +533,98 @@ def confirm_c16(h, g, v):
     ly = [(e[0], e[1]) + ((e[1], e[2], e[5], e[6]) if e[0] == 4 else ()) for e in oy['log']]
     lx = [(e[0], e[1]) + ((e[1], e[2], e[5], e[6]) if e[0] == 4 else ()) for e in ox['log']]
     return ly != lx
+
+# ---------------------------------------------------------------- C05: derivation tree with node operators (reference interpreter)
+from . import refparse
+_REFS = {}
+def ref_of(g):
+    r = _REFS.get(g.name + g.text())
+    if r is None: r = _REFS[g.name + g.text()] = refparse.Ref(g)
+    return r
+
+def parser_tree_plain(h, w, triv, remap):
+    """engine walk -> ('R', snake_name, kids) / ('T', core index), trivia leaves dropped"""
+    if w[0] == 'T':
+        return None if triv[w[4]] else ('T', remap[w[4]])
+    name = h.rule_dbg.get(h.rule_enum[w[1]], h.rule_enum[w[1]])
+    kids = [parser_tree_plain(h, k, triv, remap) for k in w[4]]
+    return ('R', name, [k for k in kids if k is not None])
+
+def class_models(cx, pc, res, limit=6):
+    """concrete inputs of the path class: the witness plus further models (blocking clauses)"""
+    out = [list(res.witness)]
+    block = [z3.Or(*[cx.tv[i] != res.witness[i] for i in range(res.n)])] if res.n else [z3.BoolVal(False)]
+    while len(out) < limit:
+        ok, m = cx.check(pc + block)
+        if not ok: break
+        w = cx.model_tokens(m); out.append(w)
+        block.append(z3.Or(*[cx.tv[i] != w[i] for i in range(res.n)]))
+    return out
+
+def eval_c05(g, h, cx, res, out):
+    if res.status != 'ok' or res.walk_err is not None or res.diags: return
+    pc = cx.pc(res)
+    triv = cx.trivia(res, pc); core = core_positions(triv)
+    remap = {i: k for k, i in enumerate(core)}
+    R = ref_of(g)
+    part = res.entry != 'parse'
+    got = parser_tree_plain(h, res.walk, triv, remap)
+    got_actions = [h.acts[e[1]] for e in res.log if e[0] == 3]
+    for wit in class_models(cx, pc, res):
+        toks = [h.tokens[wit[i]] for i in core]
+        ref = R.run(toks, start=entry_start(g, res.entry), part=part)
+        if not ref['accept']: continue          # C04's business (or outside the prioritised reading)
+        exp_actions = [f'action_{r}_{k}' for r, k in ref['actions']]
+        if ref['tree'] != got:
+            out.append(Violation('C05', 'tree', g, res, f'tree for sentence {" ".join(toks)} is {got}, the derivation tree with node operators applied is {ref["tree"]}', witness=wit)); return
+        if exp_actions != got_actions:
+            out.append(Violation('C05', 'actions', g, res, f'semantic actions for sentence {" ".join(toks)} fired as {got_actions}, derivation order is {exp_actions}', witness=wit)); return
+
+# ---------------------------------------------------------------- C04 for grammars with ordered choice / ?t (one-sided, see DESIGN)
+def eval_c04_prio(g, h, cx, res, out):
+    if res.status != 'ok': return
+    pc = cx.pc(res)
+    triv = cx.trivia(res, pc); core = core_positions(triv)
+    o, M, V = cx.oracle(core, entry_start(g, res.entry))        # M reads `/` as `|`: the unprioritised language
+    if not res.diags:
+        ok, m = cx.check(pc + [z3.Not(M)])
+        if ok:
+            out.append(Violation('C04', 'accepts-nonsentence', g, res, 'no diagnostic although no reading of the grammar derives the input', witness=cx.model_tokens(m)))
+        return
+    R = ref_of(g)
+    for wit in class_models(cx, pc + [M], res, limit=4) if cx.check(pc + [M])[0] else []:
+        if not z3.is_true(z3.simplify(z3.substitute(M, *[(cx.tv[i], z3.IntVal(wit[i])) for i in range(res.n)]))): continue
+        toks = [h.tokens[wit[i]] for i in core]
+        ref = R.run(toks, start=entry_start(g, res.entry), part=res.entry != 'parse')
+        if ref['accept']:
+            out.append(Violation('C04', 'rejects-sentence', g, res, f'{len(res.diags)} diagnostic(s) although {" ".join(toks)} is a sentence of the prioritised reading', witness=wit)); return
+
+# ---------------------------------------------------------------- C08 monitors
+def eval_c08(g, h, cx, res, out):
+    # (a) hard state restored by set_state: position, current token, tree (node vector, token_count, non_skip_len), diagnostics
+    for before, after in res.states:
+        if before != after:
+            names = ('pos', 'current', 'token_count', 'non_skip_len', 'nodes', 'diag_count')
+            d = [n for n, x, y in zip(names, before, after) if x != y]
+            out.append(Violation('C08', 'state-not-restored', g, res, f'after abandoning an alternative {d} differ from the snapshot: before {before} after {after}')); return
+    if res.status != 'ok': return
+    # (b) callbacks
+    for bad in (res.final or []):
+        out.append(Violation('C08', bad[0], g, res, bad[1])); return
+    for e in res.log:
+        if e[0] == 3 and e[4]:
+            out.append(Violation('C08', 'action-while-choice-active', g, res, f'semantic action {h.acts[e[1]]} ran while the ordered-choice mode flag was set (an attempt that can be undone, or a flag left over from a finished choice)')); return
+    if res.log and res.log[-1][4]:
+        out.append(Violation('C08', 'choice-flag-leaks', g, res, 'the ordered-choice mode flag is still set when the parse ends: later mismatches are swallowed')); return
+    for d in res.diags:
+        if d[3]:
+            out.append(Violation('C08', 'choice-flag-leaks', g, res, f'diagnostic at token {d[2]} raised while the ordered-choice mode flag was set')); return
+    # (c) once the choice is over errors are reported as usual: at most one syntax diagnostic per token, increasing
+    if not any(d[4] == 1 for d in res.diags):
+        last = -1
+        for d in res.diags:
+            if d[2] <= last:
+                out.append(Violation('C08', 'diagnostic-after-backtrack', g, res, f'syntax diagnostics at positions {[x[2] for x in res.diags]}: a position is reported twice after an abandoned alternative')); return
+            last = d[2]
+
+EVALS.update({'C05': eval_c05, 'C04p': eval_c04_prio, 'C08': eval_c08})
